@@ -1,6 +1,7 @@
 SPECIFICATION Spec
 CONSTANTS
   Strings <- StringsAll
+  OpsFrom <- StringsEvery
   Others <- OthersAll
   MaxOps = 2
   ExportHist = FALSE
